@@ -4,9 +4,15 @@ EXTENDS Embeddable, Json
 \* covers every (count, start magnitude, length magnitude) combination)
 Mags == {3, 200, 40000, 70000}
 Shapes == {[i \in 1..n |-> <<s, l>>] : n \in 1..12, s \in Mags, l \in Mags}
-MCNext == Placeholder \/ UpdateHash \/ SignEmbeddable \/ (\E es \in Shapes : SetExclusions(es)) \/ (pc = "done" /\ UNCHANGED vars)
-MCSpec == Init /\ [][MCNext]_vars
-Emit == pc = "done" => PrintT(<<"VEC", ToJson([n |-> Len(excl), start |-> excl[1][1], length |-> excl[1][2], fits |-> Fits(excl), kind |-> ret.kind])>>)
+\* second-round shapes (a smaller and a larger list than a typical first round)
+Shapes2 == {[i \in 1..n |-> <<s, l>>] : n \in {1, 11}, s \in {3, 40000}, l \in {3, 200}}
+MCNext == Placeholder \/ Again \/ UpdateHash \/ SignEmbeddable
+          \/ (\E es \in (IF round = 1 THEN Shapes ELSE Shapes2) : SetExclusions(es)) \/ (pc = "done" /\ UNCHANGED vars)
+VARIABLE hist        \* exclusion shapes of the rounds so far (history variable for vector export)
+HNext == MCNext /\ hist' = IF pc = "placed" /\ pc' = "excluded" THEN Append(hist, [n |-> Len(excl'), start |-> excl'[1][1], length |-> excl'[1][2]]) ELSE hist
+HSpec == (Init /\ hist = <<>>) /\ [][HNext]_<<vars, hist>>
+MCSpec == HSpec
+Emit == (pc = "done") => PrintT(<<"VEC", ToJson([rounds |-> hist, kind |-> ret.kind, round |-> round])>>)
 TenSmallFit == \A n \in 1..10 : Fits([i \in 1..n |-> <<3, 3>>])
 SomeOutgrow == \E es \in Shapes : ~Fits(es)
 ASSUME TenSmallFit /\ SomeOutgrow
